@@ -5,6 +5,7 @@ import (
 	"encoding/binary"
 	"encoding/hex"
 	"fmt"
+	"io"
 	"math"
 
 	"verif/harness/hx"
@@ -73,6 +74,16 @@ func readObs(data []byte) (okLit string, rdLit string, nOut int, scales [][3]flo
 	if fail != "" {
 		return okLit, "[]", 0, nil, nil, fail
 	}
+	// the same bytes through every reader shape
+	shapeFail := shapeCheck("splat.Read", data, err == nil, meshDigest(m), func(in io.Reader) (*modeling.Mesh, error) {
+		rm, e := splat.Read(in)
+		return &rm, e
+	})
+	defer func() {
+		if fail == "" {
+			fail = shapeFail
+		}
+	}()
 	if !m.HasFloat3Attribute(modeling.PositionAttribute) {
 		return okLit, "[]", 0, nil, nil, ""
 	}
@@ -137,9 +148,17 @@ func fin(x float64) float64 {
 }
 
 func splatCase(d cloudDesc) hx.Case {
-	c := hx.Case{Kind: "splat", Desc: d, Nontriv: len(d.Splats) >= 1}
-	c.Key = fmt.Sprintf("s|%v", d.Splats)
-	m := buildCloud(d)
+	return splatCaseWith("splat", d, d, buildCloud(d))
+}
+
+// splatCaseWith: the .splat round trip of mesh m, whose five splat attributes hold the values of d (m may come
+// from another codec's reader and carry further attributes, which splat.Write must ignore).
+func splatCaseWith(kind string, desc interface{}, d cloudDesc, m modeling.Mesh) hx.Case {
+	c := hx.Case{Kind: kind, Desc: desc, Nontriv: len(d.Splats) >= 1}
+	c.Key = fmt.Sprintf("%s|%v", kind, d.Splats)
+	if kind == "splat" {
+		c.Key = fmt.Sprintf("s|%v", d.Splats)
+	}
 	var buf bytes.Buffer
 	var werr error
 	func() {
